@@ -9,6 +9,7 @@ export GOFLAGS=-mod=mod GOPROXY=off GOSUMDB=off GOTOOLCHAIN=local
 HERE=$(cd "$(dirname "$0")" && pwd)
 REPO=${QMC_REPO:-/repo}
 export QMC_VERIF="$HERE"
+export QMC_REPO_DIR="$REPO"
 cd "$HERE/engine" || exit 2
 MODFLAG=""
 if [ "$REPO" != "/repo" ]; then
